@@ -180,7 +180,10 @@ func run(c *core.Ctx) {
 		"plus transport-failure cases of the four outputs built on xhttp.Client: elasticsearch/http with 2..5 endpoints of which some never accept " +
 		"(refusing port, reset/close after accept, hang-up after the request, always-5xx) and the rest are live sinks sharing one recorder; " +
 		"splunk/loki (single endpoint) and part of es/http with a live sink that cuts the connection for the first 1..11 requests of a batch; " +
-		"crossed with use_gzip on/off and five gzip levels; the same oracle over what the live sinks accepted (gzip bodies decoded to EOF, all members)")
+		"crossed with use_gzip on/off and five gzip levels; the same oracle over what the live sinks accepted (gzip bodies decoded to EOF, all members); " +
+		"plus big-event cases of the file output: 2..8 workers behind the real Batcher fed back to back with batches whose events encode to several hundred KiB .. 3 MiB " +
+		"(next to ordinary ones), retention_interval 24h or 3..40 ms (seal-ups while the workers write); the same line oracle over every file of the target directory " +
+		"(sealed and current): each file newline-terminated, each line one valid JSON document equal to its event, every event exactly once, a batch's lines contiguous and in order")
 	c.Assume("the loopback HTTP/TCP sinks and the recording KafkaClient deliver the bytes the plugin handed to the transport; net/http and compress/gzip are trusted")
 	c.Assume("events are built with pipeline.VerifNewEvent + Root.DecodeBytes (the kinds a real split produces), not by a running pipeline")
 	c.Assume("Kafka framing is observed at the plugin's KafkaClient interface (bytes copied at ProduceSync time), not on the wire")
@@ -218,6 +221,20 @@ func run(c *core.Ctx) {
 			jobs = append(jobs, j)
 		}
 	}
+	// big-event cases of the file output (bigfile.go): numbered after all others, own seed stream
+	perBig := c.N(16, 160)
+	bigFrom := perPlugin + perTransport
+	if only == "" || strings.Contains(","+only+",", ",file,") {
+		bigChunk := 4
+		for from := 0; from < perBig; from += bigChunk {
+			j := job{plugin: "file", mode: modeBigFile}
+			for k := from; k < from+bigChunk && k < perBig; k++ {
+				j.cases = append(j.cases, bigFrom+k)
+				j.seeds = append(j.seeds, c.SubSeed("bigfile-case|file", bigFrom+k))
+			}
+			jobs = append(jobs, j)
+		}
+	}
 	// interleave plugins so that slow ones spread over the workers
 	sort.SliceStable(jobs, func(a, b int) bool { return jobs[a].cases[0] < jobs[b].cases[0] })
 
@@ -240,6 +257,9 @@ func run(c *core.Ctx) {
 		stream := "case|"
 		if mode == modeTransport {
 			stream = "transport-case|"
+		}
+		if mode == modeBigFile {
+			stream = "bigfile-case|"
 		}
 		r := core.RunChild("run", childIn{Plugin: plugin, Mode: mode, Cases: []int{no}, Seeds: []int64{c.SubSeed(stream+plugin, no)}},
 			core.ChildOpt{Timeout: 5 * time.Minute, Env: []string{"C19_TRACE="}})
@@ -420,6 +440,11 @@ func run(c *core.Ctx) {
 	}
 	need = append(need, "transport.fleet_with_refusing_port_accepted_ok.gzip", "transport.fleet_with_refusing_port_accepted_ok.plain",
 		"transport.requests_via.reset", "transport.requests_via.close", "transport.requests_via.hangup", "transport.requests_via.5xx", "transport.requests_via.live#2")
+	// big-event cases of the file output: batches whose largest event is 256 KiB..1 MiB and
+	// above 1 MiB judged ok, with and without seal-ups while the workers wrote, and
+	// payloads of concurrent workers seen out of hand-out order
+	need = append(need, "bigfile.batches_ok.maxev256k-1m", "bigfile.batches_ok.maxev1m+", "bigfile.cases_ok_with_sealed_files",
+		"bigfile.cases_ok_single_file", "bigfile.cases_with_batches_overtaken_by_another_worker")
 	for _, k := range need {
 		if total[k] == 0 {
 			c.Fatal("expected behaviour class never observed: %s", k)
